@@ -15,7 +15,8 @@
 
 namespace {
 
-enum { OP_SCHED_NOW = 1, OP_SCHED_FUT, OP_CANCEL, OP_SLEEP, OP_YIELD, OP_BEHAV, OP_MAIN_SLEEP, OP_EXTRA_REF, OP_BULK_SCHED, OP_MEGA_SCHED };
+enum { OP_SCHED_NOW = 1, OP_SCHED_FUT, OP_CANCEL, OP_SLEEP, OP_YIELD, OP_BEHAV, OP_MAIN_SLEEP, OP_EXTRA_REF, OP_BULK_SCHED, OP_MEGA_SCHED, OP_BULK_REFS };
+// OP_BULK_REFS (main only): a = count: that many extra references are acquired and then released again - none of these releases is the last one
 // OP_MEGA_SCHED: a = count, b = first task, c = delay class (all timed, all due soon): hundreds of thousands of timers pending at once
 enum { B_SCHED_NOW = 1, B_SCHED_FUT, B_SCHED_THEN_CANCEL, B_RESCHED_SELF, B_CANCEL_OTHER };
 static const uint64_t FAR = 100000000000000000ull; // 1e17 ns (3 years): only the accelerated clock of a long fair tail gets there
@@ -360,6 +361,20 @@ RunInfo run(const sim::Plan &plan) {
                     aws_thread_scheduler_acquire(c.ts);
                     sim::probe("extra_reference_acquired");
                     break;
+                case OP_BULK_REFS: {
+                    // the reference counter is a size_t: billions of references are legal. Main keeps its own reference throughout, so the
+                    // scheduler must stay alive (thread running, nothing cancelled) whatever the counter passes on the way up and down.
+                    uint64_t n = (uint64_t)op.a;
+                    for (uint64_t k = 0; k < n; k++) aws_thread_scheduler_acquire(c.ts);
+                    sim::probe(n > ((uint64_t)1 << 32) ? "more_than_2_to_32_references_held" : "bulk_references_held");
+                    for (uint64_t k = 0; k < n; k++) {
+                        aws_thread_scheduler_release(c.ts);
+                        if ((k & 0xFFFFFFF) == 0 && sim::thread_done(c.sched_tid))
+                            sim::violation("c08:thread-exited-early", "the scheduler thread exited although %llu references are still held", (unsigned long long)(n - k));
+                    }
+                    if (sim::thread_done(c.sched_tid)) sim::violation("c08:thread-exited-early", "the scheduler thread exited although main still holds its reference");
+                    break;
+                }
             }
         }
         while (c.extra_refs[0] > 0) { c.extra_refs[0]--; do_release(c, "main (extra reference)"); }
@@ -519,6 +534,7 @@ std::string op_text(const sim::Op &op) {
         case OP_YIELD: snprintf(b, sizeof b, "%s%d: yield", who, op.thr); break;
         case OP_BULK_SCHED: snprintf(b, sizeof b, "%s%d: schedule %lld tasks in a row (from task %lld, mixed now/future)", who, op.thr, (long long)op.a, (long long)op.b); break;
         case OP_MEGA_SCHED: snprintf(b, sizeof b, "%s%d: schedule %lld timers in a row (from task %lld, all %s)", who, op.thr, (long long)op.a, (long long)op.b, dc[op.c % 5]); break;
+        case OP_BULK_REFS: snprintf(b, sizeof b, "main: acquire %lld extra references, then release them again", (long long)op.a); break;
         case OP_EXTRA_REF: snprintf(b, sizeof b, "%s%d: acquire an extra reference (released before its own)", who, op.thr); break;
         case OP_BEHAV: snprintf(b, sizeof b, "behaviour: task %lld when RUN does %s(task %lld, %s)", (long long)op.a, ba[op.c % 6], (long long)op.d, dc[op.b % 11]); break;
         default: snprintf(b, sizeof b, "?");
